@@ -59,6 +59,25 @@ def vector_tt(rng):
         rows[int(rng.integers(0, d))] = 2
     cplx = gen.rand_cplx(rng)
     k = int(rng.integers(0, 3))
+    if rng.random() < 0.1:
+        # ONE ndarray object at several positions (product states [site] * d, a translation-invariant bulk between two end caps), some of
+        # them Fortran-ordered: the documented way to write such tensors; whatever a sweep does in the buffer of one position shows at the others
+        n = int(rng.integers(2, 4))
+        d = int(rng.integers(2, 6))
+        cp = bool(cplx) if cplx != 'mixed' else True
+        r = int(rng.integers(1, 3))
+        if r == 1:
+            site = gen.randn(rng, (1, n, 1, 1), cp)
+            cores = [site] * d
+        else:
+            first, site, last = gen.randn(rng, (1, n, 1, r), cp), gen.randn(rng, (r, n, 1, r), cp), gen.randn(rng, (r, n, 1, 1), cp)
+            cores = [first] + [site] * max(d - 2, 0) + [last]
+            if rng.random() < 0.4:
+                cores[-1] = np.asfortranarray(cores[-1])
+        if rng.random() < 0.3:
+            cores = [np.asfortranarray(c) if c is not cores[1 % len(cores)] else c for c in cores]
+        t = tt.TT(list(cores))
+        return t, 'shared_core_objects'
     if k == 0:  # full-rank unfoldings: maximal feasible ranks
         ranks = gen.max_ranks(rows, [1] * d)
         kind = 'full_rank'
@@ -88,6 +107,8 @@ def vector_tt(rng):
 
 def clone(t):
     with probe.oracle():
+        if len(set(id(c) for c in t.cores)) < len(t.cores):
+            return tt.TT(gen.clone_cores(t.cores))  # (keeps the aliasing pattern: one object at several positions stays one object)
         return t.copy() if (t.order + len(t.cores[0].ravel())) % 2 else tt.TT([c.copy() for c in t.cores])  # (copy() carries along whatever the object carries)
 
 
